@@ -432,7 +432,14 @@ def _borrowed(modname, fname):
 BORROWED = [_borrowed("c15", "r4_duplicate_guards"), _borrowed("c15", "r5_acceptance_table")]
 
 
-RULES = [r1_sized_by_request, r2_slot_index, r3_range_and_zip, r4_counts, r5_allocator, r6_exact_id_number, r7_batch_key_is_whole_range, r8_frontend_keeps_positions, r9_slot_vector_travels_untouched] + BORROWED
+
+def ratomic_ids_reserved_atomically(ctx):
+    """two calls in flight never share a request id (ids are reserved with one atomic fetch_add)"""
+    from .common import request_ids_reserved_atomically
+    request_ids_reserved_atomically(ctx, "C12.ATOMIC")
+
+
+RULES = [ratomic_ids_reserved_atomically, r1_sized_by_request, r2_slot_index, r3_range_and_zip, r4_counts, r5_allocator, r6_exact_id_number, r7_batch_key_is_whole_range, r8_frontend_keeps_positions, r9_slot_vector_travels_untouched] + BORROWED
 
 LEVEL_TEXT = (
     "Structural necessary conditions for positional batch results, decided from the type-checked program for both "
